@@ -128,7 +128,7 @@ class Fixture:
                 k = 0
                 while any(fnmatch.fnmatchcase(p, pat) for pat in self.patterns) and k < 20:
                     k += 1
-                    name = b"f%d_" % k + unhx(ent[0]).lstrip(b".z") + b"_x"
+                    name = (b"f%d_", b"%d-", b"q%d.", b"Z%d_")[k % 4] % k + unhx(ent[0]).lstrip(b".z") + (b"_x", b"~", b"-0", b".q")[(k // 4) % 4]
                     while name in used:
                         name += b"_"
                     p = name if not rel else rel + b"/" + name
